@@ -91,6 +91,44 @@ theorem oom_keeps_invariant (hs hs' : Hist) (op : Op) (os : List OsDir) (out : O
     (hop : OpOk hs op os) (h : hs.step op os = .ok (hs', out)) (_hr : refused hs'.st.evs = true) :
     Inv2 hs' := inv_step hi hop h
 
+/-- **owner-only writes, dynamic form**: the model's memory is the header table, so the words an operation writes are
+the header words (and free-chunk links) of entries that exist before or after it. For every operation from a good
+state, every entry of the table BEFORE or AFTER the step — hence every header the step creates, rewrites or deletes —
+lies outside every block that stays live across the step: its two header words end before the block's payload or start
+after it, and if it is a free chunk so does its whole interior beyond the `prev_foot` word. (User bytes themselves are
+not modelled; the byte-pattern oracle on the real code covers them.) -/
+theorem step_metadata_outside_persisting_blocks {hs hs' : Hist} {op : Op} {os : List OsDir} {out : Out}
+    (hi : Inv2 hs) (hop : OpOk hs op os) (h : hs.step op os = .ok (hs', out))
+    (b : Block) (hb : b ∈ hs.live) (hb' : b ∈ hs'.live) (x : Ent)
+    (hx : x ∈ hs.st.h.ents ∨ x ∈ hs'.st.h.ents) :
+    (x.addr + 16 ≤ b.ptr ∨ b.ptr + b.size ≤ x.addr + 8) ∧
+    (isFree x = true → x.addr + x.size ≤ b.ptr ∨ b.ptr + b.size ≤ x.addr + 8) := by
+  rcases hx with hx | hx
+  · exact metadata_outside_live_blocks hs hi.wf b hb x hx
+  · exact metadata_outside_live_blocks hs' (wf_step hi hop h) b hb' x hx
+
+/-- the same, by address: wherever the header table answers differently before and after the step (a header written,
+changed or removed at `a`), the two header words at `a` lie outside every block that stays live across the step -/
+theorem changed_header_outside_persisting_blocks {hs hs' : Hist} {op : Op} {os : List OsDir} {out : Out}
+    (hi : Inv2 hs) (hop : OpOk hs op os) (h : hs.step op os = .ok (hs', out))
+    (b : Block) (hb : b ∈ hs.live) (hb' : b ∈ hs'.live) (a : Nat)
+    (hne : findEnt hs.st.h.ents a ≠ findEnt hs'.st.h.ents a) :
+    a + 16 ≤ b.ptr ∨ b.ptr + b.size ≤ a + 8 := by
+  cases h1 : findEnt hs.st.h.ents a with
+  | some e =>
+    obtain ⟨hm, ha⟩ := findEnt_some h1
+    have := (step_metadata_outside_persisting_blocks hi hop h b hb hb' e (Or.inl hm)).1
+    rw [ha] at this
+    exact this
+  | none =>
+    cases h2 : findEnt hs'.st.h.ents a with
+    | some e =>
+      obtain ⟨hm, ha⟩ := findEnt_some h2
+      have := (step_metadata_outside_persisting_blocks hi hop h b hb hb' e (Or.inr hm)).1
+      rw [ha] at this
+      exact this
+    | none => exact absurd (h1.trans h2.symm) hne
+
 /-! ## non-vacuity -/
 
 example : Inv2 Hist.init := inv2_init
